@@ -87,7 +87,7 @@ CLAIMED["C06"] = (
     "super() without a further layer returns Err.  (I6) every re-entry through with_execution_state runs a block "
     "layer on the caller's block table (Keep) and code of any other template (include, macro body) on a replaced or "
     "checkpointed one, the replacing table being built from the entered template's own blocks.  The output of a given chain shape and include/import variable "
-    "visibility are value-level behaviour that static analysis does not decide; they are NOT claimed. Later additions: (I7) compile_block registers the block and emits its CallBlock on every path; (I8) the discard test and the write-target selection both look only at the top of the capture stack; every unwrapped block-table lookup in perform_super is dominated by a checked one.",
+    "visibility are value-level behaviour that static analysis does not decide; they are NOT claimed. Later additions: (I7) compile_block registers the block and emits its CallBlock on every path; (I8) the discard test and the write-target selection both look only at the top of the capture stack; every unwrapped block-table lookup in perform_super is dominated by a checked one. Round 6: the cycle test may be contains() or insert(), must return Err on the present side, dominate block registration and look at the recorded name; the loaded set is emptied where the block table is replaced; (I10) the module object of an import receives every local of the frame.",
     "DESIGN.md §3 C06",
     "Partial claim (error clauses + block layer discipline).  Include recursion accounting is decided under C11.")
 
@@ -156,7 +156,7 @@ CLAIMED["C02"] = (
     "captures are marked safe only when auto-escape is on; the fast-path byte test covers every byte the escaper "
     "escapes, which covers < > & \" ', all within the range pre-check, and replacements are free of raw "
     "metacharacters.  This decides the escaping skeleton (no raw path to the sink, no unjustified safe-marking) for "
-    "all templates and contexts; the text transformation of each filter and custom formatters are not decided. Also: wherever a filter escapes a parameter-derived value on one path, every other non-error path is under is_safe()/.safe or a kind test restricted to markup-free kinds (escape-or-justify); the byte classifier is read from the function and its closures and its range pre-check must contain every listed byte. Later additions: a String returned through from_safe_string and extended in place only receives constants, escaper / safe-builder results or text taken under an is_safe() test; the default auto-escape callback maps the documented HTML extensions to Html by equality on the last dot segment.",
+    "all templates and contexts; the text transformation of each filter and custom formatters are not decided. Also: wherever a filter escapes a parameter-derived value on one path, every other non-error path is under is_safe()/.safe or a kind test restricted to markup-free kinds (escape-or-justify); the byte classifier is read from the function and its closures and its range pre-check must contain every listed byte. Later additions: a String returned through from_safe_string and extended in place only receives constants, escaper / safe-builder results or text taken under an is_safe() test; the default auto-escape callback maps the documented HTML extensions to Html by equality on the last dot segment. Round 6: (S9) only reviewed markup-neutral transforms may carry the safe flag over with preserve_safety; (S4b) a capture is HTML-safe only when it was captured under HTML escaping (two known findings: set-block and macro results captured under JSON escaping).",
     "DESIGN.md §3 C02",
     "The speedups (v_htmlescape) feature is outside the analysed configurations.  Restoration of the auto-escape mode after scoped constructs is C05.")
 
@@ -198,7 +198,7 @@ CLAIMED["C05"] = (
     "and the for-else body are parsed with in_loop reset; in the VM every nested-evaluation helper closes what it "
     "opens on every path (reviewed error-path exception), with_execution_state writes back what it replaced, and the "
     "handlers of the scope instructions perform exactly their operation.  This decides the property's structural "
-    "content for all templates the compiler accepts and all control-flow paths of the emitted code. Also: the scope walk of break/continue and their jump-target searches scan the pending blocks in the same direction; every instruction emitted at the loop end ahead of PopLoopFrame pushes nothing on the interpreter paths of a recursive loop invocation. Later additions: conversely, every closer (decr_depth, reset_closure, BlockStack::pop) is reachable only after its opener succeeded on that path (flags tested twice and never written are case-split). B8: every value assigned to the interpreter's program counter is a jump operand of the fetched instruction, a constant, pc + k, a return address whose every producer (traced across functions) is pc + k of the same interpreter, or a position remembered in an object used only behind a comparison of the running instructions' identity with the identity stored beside it, the pair being built from the interpreter's own state and counter. The span stack is a fourth counter of the B1 typestate.",
+    "content for all templates the compiler accepts and all control-flow paths of the emitted code. Also: the scope walk of break/continue and their jump-target searches scan the pending blocks in the same direction; every instruction emitted at the loop end ahead of PopLoopFrame pushes nothing on the interpreter paths of a recursive loop invocation. Later additions: conversely, every closer (decr_depth, reset_closure, BlockStack::pop) is reachable only after its opener succeeded on that path (flags tested twice and never written are case-split). B8: every value assigned to the interpreter's program counter is a jump operand of the fetched instruction, a constant, pc + k, a return address whose every producer (traced across functions) is pc + k of the same interpreter, or a position remembered in an object used only behind a comparison of the running instructions' identity with the identity stored beside it, the pair being built from the interpreter's own state and counter. The span stack is a fourth counter of the B1 typestate. Round 6: (B9) the tracker's scopes end where the engine's frames end and every compiled statement list is walked on its own; (B10) every nested evaluation on the caller's context pushes a frame first (known finding: include).",
     "DESIGN.md §3 C05",
     "Patched jump targets are tied to the pending-block nesting the check verifies; the run-time meaning of frames/captures themselves is trusted.")
 
@@ -226,7 +226,7 @@ CLAIMED["C07"] = (
     "to_bits) is only reached on the not-`==` side of a float equality test whose other side returns Equal, so the "
     "order agrees with == on -0.0/0.0.  Other laws over concrete values within one pair "
     "(transitivity, NaN, 2^53 neighbourhood) and the algebra of sort/unique/groupby/batch/slice/reverse are "
-    "value-level and NOT decided or claimed. Later additions: (V4) a vector sorted with a stable sort is never reversed afterwards in the same filter; (V5) inside equality / ordering an optional length is never compared as a value (both must be Some); (V2) a comparator whose verdict is a constant for some pairs only is reported; (V7) the member searches of the function the In instruction calls decide by Value == Value.",
+    "value-level and NOT decided or claimed. Later additions: (V4) a vector sorted with a stable sort is never reversed afterwards in the same filter; (V5) inside equality / ordering an optional length is never compared as a value (both must be Some); (V2) a comparator whose verdict is a constant for some pairs only is reported; (V7) the member searches of the function the In instruction calls decide by Value == Value. Round 6: (V1e) pairs of object representations that == compares must share a kind after cmp's kind folding; (V9) as_f64 exactness = C08.N7; (V10) every Enumerator arm of Value::reverse reverses (two known findings pinned by test_reverse); V2 requires kind()==String before a comparator uses as_str().",
     "DESIGN.md §3 C07",
     "Known findings (true == 1 across kinds and hashes) are listed; host Object::custom_cmp implementations are outside the analysis.")
 
@@ -247,7 +247,7 @@ CLAIMED["C01"] = (
     "reviewed entry.  Interpreter recursion is decided under C11.  These are necessary "
     "conditions that realistic regressions break (a dropped guard, a new unchecked add, an unbounded capacity); "
     "absence of panics over the whole engine, VM operand-stack discipline and the stack cost of data recursion (a template can nest a list 50000 deep through a namespace attribute in a loop; dropping, printing, comparing or hashing it overflows a 2 MiB stack - confirmed, see DESIGN.md §3 C01) are "
-    "NOT decided. Later additions: (P9) slice/Vec indexing in the builtin modules is in range by construction (whole range, search results, a literal index under a dominating length test, or a reviewed entry); (P10) the interpreter's unsigned counters are only decremented after the matching increment succeeded on the same path; P3 also treats the number of call arguments as template-controlled, checks the divisor of / and %, and requires a constant bound on template-chosen iteration counts; P7 treats character columns like literals (not byte offsets). Round 5: the taint keeps flowing through checked/saturating/wrapping results, closure captures, combinator payloads, coerced integer pairs and the loop object's counters; bounds on checked products count (path-sensitive over matches!-style booleans); (P14) every run-time width/precision handed to Rust's formatter derives from fields whose every producer is a bounded parse with constant + slack <= u16::MAX; (P9) a reviewed indexing entry that leans on a helper is valid only while the helper clamps its result below the bound. (P15) a loop that re-slices its haystack after str::find has a provably non-empty needle. (P3c) every other overflow-capable operation of the builtin modules is discharged by a structural argument (64-bit step, sum of lengths, dominating comparison, literal divisor) or reviewed under a key that includes its type and operand expression.",
+    "NOT decided. Later additions: (P9) slice/Vec indexing in the builtin modules is in range by construction (whole range, search results, a literal index under a dominating length test, or a reviewed entry); (P10) the interpreter's unsigned counters are only decremented after the matching increment succeeded on the same path; P3 also treats the number of call arguments as template-controlled, checks the divisor of / and %, and requires a constant bound on template-chosen iteration counts; P7 treats character columns like literals (not byte offsets). Round 5: the taint keeps flowing through checked/saturating/wrapping results, closure captures, combinator payloads, coerced integer pairs and the loop object's counters; bounds on checked products count (path-sensitive over matches!-style booleans); (P14) every run-time width/precision handed to Rust's formatter derives from fields whose every producer is a bounded parse with constant + slack <= u16::MAX; (P9) a reviewed indexing entry that leans on a helper is valid only while the helper clamps its result below the bound. (P15) a loop that re-slices its haystack after str::find has a provably non-empty needle. (P3c) every other overflow-capable operation of the builtin modules is discharged by a structural argument (64-bit step, sum of lengths, dominating comparison, literal divisor) or reviewed under a key that includes its type and operand expression. (P3d) integer Iterator::sum / product sites are reviewed.",
     "DESIGN.md §3 C01",
     "Partial claim.  The taint sources are integer parameters of the builtin modules and integer conversions of template values; arithmetic on other integers is out of scope.")
 
